@@ -227,7 +227,8 @@ def optionRecordsOf (sets : List FlowSet) : List OptionsDataRecord :=
   sets.flatMap fun s => match s with | .optsData _ _ rs => rs | _ => []
 
 /-- NetFlowLookFor + NetFlowPopulate into a *uint32: first non-enterprise field of that type;
-    found even when the value is nil; BinaryRead of a uint32 needs 4 bytes (reads the first 4). -/
+    found even when the value is nil; the value is decoded as an unsigned number of any width up to
+    8 bytes (reduced-size encoding), truncated to 32 bits. -/
 def populate (fields : List DataField) (typeId : Nat) : Res (Option Nat) :=
   match fields.find? (fun f => !f.penProvided && f.type == typeId) with
   | none => .ok none
@@ -235,9 +236,9 @@ def populate (fields : List DataField) (typeId : Nat) : Res (Option Nat) :=
     match f.value with
     | none => .ok (some 0)                 -- exists, value nil: found, nothing written (caller keeps 0)
     | some v =>
-      match readU 4 v with
+      match decodeUNumber 32 v with
       | .error e => .error e
-      | .ok (x, _) => .ok (some x)
+      | .ok x => .ok (some x)
 
 /-- SearchNetFlowOptionDataSets: first record, in order, carrying 305, else 50, else 34 -/
 def searchSamplingRate : List OptionsDataRecord → Res (Option Nat)
